@@ -52,8 +52,27 @@ type c05Outcome struct {
 // gbn-dead-peer-full-window-c05 on the relay's event log.
 func fullWindowLoop(events []relay.Event, now time.Duration, blocked, gone string) (bool, string) {
 	since := now - 100*time.Second
+	// the last packet the relay handed to the blocked side: whatever ping of
+	// its own was on the wire before that moment has had its pong timer
+	// paused by it
+	var lastRecv time.Duration = -1
+	firstSend := map[string]time.Duration{} // head -> first time the blocked side sent it
+	for _, e := range events {
+		if e.Who != blocked {
+			continue
+		}
+		if e.Op == "recv" && e.T > lastRecv {
+			lastRecv = e.T
+		}
+		if e.Op == "send" {
+			if _, ok := firstSend[e.Head]; !ok {
+				firstSend[e.Head] = e.T
+			}
+		}
+	}
 	seqs := map[string]bool{}
-	n, other, pings, nonData := 0, 0, 0, 0
+	n, other, armedPings, pausedPings, nonData := 0, 0, 0, 0, 0
+	seenPing := map[string]bool{}
 	for _, e := range events {
 		if e.Op != "send" || e.T < since {
 			continue
@@ -72,14 +91,22 @@ func fullWindowLoop(events []relay.Event, now time.Duration, blocked, gone strin
 			nonData++ // it sends something else than DATA
 			continue
 		}
-		if h[6:8] == "01" {
-			pings++ // a ping of its own is on the wire: pong timer armed
-			continue
-		}
 		seqs[h[2:4]] = true
+		if h[6:8] == "01" && !seenPing[h] {
+			seenPing[h] = true
+			if firstSend[h] <= lastRecv {
+				// sent before the last packet from the peer arrived: that
+				// packet paused its pong timer, the ping is just one more
+				// unacknowledged packet in the window
+				pausedPings++
+			} else {
+				armedPings++ // pong timer armed and never served: not this finding
+			}
+		}
 	}
-	why := fmt.Sprintf("last 100s: %s sent %d packets (%d distinct DATA seqs, %d pings, %d other), %s sent %d", blocked, n, len(seqs), pings, nonData, gone, other)
-	return other == 0 && pings == 0 && nonData == 0 && n >= 20 && len(seqs) == 20, why
+	why := fmt.Sprintf("last 100s: %s sent %d packets (%d distinct seqs, %d pings whose pong timer a later packet had paused, %d pings with the pong timer armed, %d non-DATA), %s sent %d",
+		blocked, n, len(seqs), pausedPings, armedPings, nonData, gone, other)
+	return other == 0 && armedPings == 0 && nonData == 0 && n >= 20 && len(seqs) == 20, why
 }
 
 type e2eSide struct {
